@@ -225,10 +225,21 @@ func customSpec(rng *rand.Rand) *common.Spec {
 	if rng.Intn(3) == 0 {
 		c.VALIDATOR_REGISTRY_LIMIT = view64(pickU(rng, 1<<40, 1<<20, 1000, 512))
 	}
+	if rng.Intn(3) == 0 {
+		// vector lengths, including non-powers of two (SeedRandao fills EPOCHS_PER_HISTORICAL_VECTOR entries)
+		c.EPOCHS_PER_HISTORICAL_VECTOR = common.Epoch(pickU(rng, 64, 32, 96, 12, 24, 72))
+		c.SLOTS_PER_HISTORICAL_ROOT = common.Slot(pickU(rng, 64, 32, 128, 24, 48))
+		c.EPOCHS_PER_SLASHINGS_VECTOR = common.Epoch(pickU(rng, 64, 16, 12))
+	}
 	if rng.Intn(4) == 0 {
-		c.EPOCHS_PER_HISTORICAL_VECTOR = common.Epoch(pickU(rng, 64, 32, 96))
-		c.SLOTS_PER_HISTORICAL_ROOT = common.Slot(pickU(rng, 64, 32, 128))
-		c.EPOCHS_PER_SLASHINGS_VECTOR = common.Epoch(pickU(rng, 64, 16))
+		// "apart"-style balance constants: every combination of cap / increment / ejection differs from the published one
+		c.MAX_EFFECTIVE_BALANCE = common.Gwei(pickU(rng, 24000000000, 48000000000, 20000000000))
+		c.EFFECTIVE_BALANCE_INCREMENT = common.Gwei(pickU(rng, 1000000000, 2000000000, 4000000000, 250000000))
+		c.EJECTION_BALANCE = common.Gwei(pickU(rng, 8000000000, 12000000000))
+		c.MIN_DEPOSIT_AMOUNT = common.Gwei(pickU(rng, 1000000000, 500000000))
+		if rng.Intn(2) == 0 {
+			c.SLOTS_PER_EPOCH = 6
+		}
 	}
 	return c
 }
